@@ -15,7 +15,7 @@ PROPERTY = "C18"
 RULE = ("(pairs) all ordered pairs inside per-class value pools that are exhaustive in unit / "
         "alignment / None-ness (25 sizes, 36 points, 36 stretches, 256 paddings, 24 alignments, "
         "81 layouts) plus all cross-class pairs of a mixed pool; (rpairs) Hypothesis layouts "
-        "paired with a copy mutated in at most one component, or with one magnitude moved by one ulp / 1e-12 relative / 1e-10 absolute (still unequal); (immut) the receiver is hashed first and every result must equal and hash like the same value built afresh; (padding) Point / Stretch parsing is repeated while a different value with the same hash is alive; as_percentage_of / "
+        "paired with a copy mutated in at most one component, or with one magnitude moved by one ulp / 1e-12 relative / 1e-10 absolute (still unequal); (immut) the receiver is hashed first and every result must equal and hash like the same value built afresh; (print) magnitudes up to 1e30 print as plain decimals; (padding) Point / Stretch parsing is repeated while a different value with the same hash is alive; as_percentage_of / "
         "fit_to_screen on generated values, receiver dumped before/after; (parse) ALL strings of "
         "length <=4 (thorough <=5) over the 15 symbols '015.+-eEpxmct% ' judged by a hand-written "
         "recogniser, plus Hypothesis strings to length 12 and perturbed valid sizes; (print) "
@@ -457,6 +457,9 @@ def print_strategy(tier):
                   st.integers(0, 100).map(lambda n: n / 10), st.integers(0, 100).map(lambda n: n / 10)
                   ).filter(lambda x: x >= 0),
         st.floats(min_value=0, max_value=1e9, allow_nan=False, allow_infinity=False),
+        # very large magnitudes print as plain decimals too (no exponent, no precision limit)
+        st.floats(min_value=1e9, max_value=1e30, allow_nan=False, allow_infinity=False),
+        st.sampled_from([1e15, 1e16, 1e21, 1e22, 1e26, 2.5e27, 1e28, 1e30, 123456789012345678.9]),
     )
     return st.fixed_dictionaries({"v": mag, "u": st.sampled_from(UNITS)})
 
